@@ -220,6 +220,15 @@ def special_designs():
             add('MsgSequencer(len %d)' % len(msg), f, True)
     except Exception:
         pass
+    # the optional-port / parameter reuse designs of C03 (several differently configured instances of one block in one parent)
+    # are also simulated: an instance bound to the wrong shared body is a behavioural difference too
+    try:
+        from . import c03
+        for label, f in c03.reuse_designs():
+            seq = any(k in label for k in ('Reg', 'Stack'))
+            add('reuse: ' + label, f, seq)
+    except Exception:
+        pass
     return out
 
 
